@@ -11,13 +11,13 @@ SeedFor(name) == [i \in 1..(2 * Len(Seeds[name])) |->
                     [m |-> IF i <= Len(Seeds[name]) THEN "m1" ELSE "m2", item |-> Seeds[name][k].item, id |-> Seeds[name][k].id]]
 Assigns == {[op |-> "assignAllIds"]} \cup {[op |-> "assignIds", kind |-> k] : k \in Kinds \cup {"MATH"}} \cup {[op |-> "assignId", item |-> i] : i \in RepItems}
 EditIds == {"b4da55", "b4da56", "dup", NoneS}
-Edits(m) == {[op |-> "edit", m |-> m, item |-> i, id |-> d] : i \in RepItems \cup {"math"}, d \in EditIds}
+Edits(m) == {[op |-> "edit", m |-> m, item |-> i, id |-> d] : i \in RepItems \cup {"math"} \cup Loose, d \in EditIds}
 Set(m) == [op |-> "setModel", m |-> m]
 Histories ==
     {<<Set("m1"), a>> : a \in Assigns}
     \cup {<<Set("m1"), e, a>> : e \in Edits("m1"), a \in (IF Depth = "quick" THEN {[op |-> "assignAllIds"], [op |-> "assignIds", kind |-> "MODEL"], [op |-> "assignId", item |-> "var:d1/y"], [op |-> "lookup"]} ELSE Assigns \cup {[op |-> "lookup"]})}
     \cup UNION {{<<Set("m1"), [op |-> "assignAllIds"], e, a>> :
-                    a \in {[op |-> "assignAllIds"], [op |-> "assignIds", kind |-> IF e.item = "math" THEN "MATH" ELSE KindOf[e.item]], [op |-> "assignId", item |-> "comp:c2"], [op |-> "lookup"]}}
+                    a \in {[op |-> "assignAllIds"], [op |-> "assignIds", kind |-> IF e.item = "math" THEN "MATH" ELSE IF e.item \in Loose THEN "COMPONENT_REF" ELSE KindOf[e.item]], [op |-> "assignId", item |-> "comp:c2"], [op |-> "lookup"]}}
                 : e \in Edits("m1")}
     \cup {<<Set("m1"), [op |-> "assignAllIds"], Set("m2"), a>> : a \in Assigns \cup {[op |-> "lookup"]}}
     \cup {<<Set("m1"), e, Set("m2"), a>> : e \in Edits("m2"), a \in {[op |-> "assignAllIds"], [op |-> "lookup"], [op |-> "assignId", item |-> "model"]}}
